@@ -37,7 +37,9 @@ Conventions
   order SQL does not define; the model returns table order and the correspondence harness
   sorts such results on both sides.
 * Strings are compared byte-wise (SQLite `BINARY` collation): `\Seen` and `\seen` are two
-  different flag rows.  Case-insensitivity is `imap.FlagSet`'s business, above this layer.
+  different flag rows (`AddFlagToMessages`' `INSERT OR IGNORE` stores both for one message).
+  Case-insensitivity is `imap.FlagSet`'s business, above this layer — with one exception since
+  /repo 45f4598: `RemoveFlagFromMessages` deletes `value = ? COLLATE NOCASE` (`nocaseEq`).
   NOT modelled: SQLite type affinity.  `mailbox_message_<id>.message_remote_id` is declared
   `string` (NUMERIC affinity): a remote id that looks like a number is stored as a number and
   every later read of the mailbox fails to scan it (corpus/C08/pending/numeric-looking-remote-id.ops).
@@ -752,14 +754,22 @@ def addFlagToMessages (S : Sites) (ids : List MessageId) (flag : FlagVal) : Tx U
   let db ← forChunks (site.size S.limit) ids (addFlagChunk site flag ids) db
   return ((), db)
 
+/-- `value = ? COLLATE NOCASE`: SQLite's NOCASE folds the 26 ASCII upper-case letters only, which is what
+    `String.toLower` (`Char.toLower`) does.  A bound value that is not a string never matches. -/
+def nocaseEq (bound : Option Bind) (value : String) : Bool :=
+  match bound with
+  | some (.str f) => value.toLower == f.toLower
+  | _ => false
+
 def removeFlagChunk (site : ChunkSite) (flag : FlagVal) (ids c : List MessageId) (db : DB) : Except DbErr DB := do
-  -- DELETE FROM message_flags_v2 WHERE message_id IN (?…) AND value = ?
+  -- DELETE FROM message_flags_v2 WHERE message_id IN (?…) AND value = ? COLLATE NOCASE
+  -- (since /repo 45f4598: every spelling of the flag is removed; before, `value = ?` removed the exact spelling only)
   let s0 := site.stmt 0
   let src ← pick s0 c ids
   let bound ← bindStmt s0 c ids [] (src.map .msg ++ [.str flag])
   let inList := bound.dropLast
   let last := bound.getLast?
-  return { db with msgFlags := db.msgFlags.filter fun p => !(inList.contains (.msg p.1) && last == some (.str p.2)) }
+  return { db with msgFlags := db.msgFlags.filter fun p => !(inList.contains (.msg p.1) && nocaseEq last p.2) }
 
 def removeFlagFromMessages (S : Sites) (ids : List MessageId) (flag : FlagVal) : Tx Unit := fun db => do
   let site := S.site "RemoveFlagFromMessages"
